@@ -791,6 +791,20 @@ func (td *typeDecls) declare(name string, o *VOpaque, depth int) {
 			td.openKinds++
 			emit(fmt.Sprintf("[]struct{ _%s int }", strings.TrimLeft(name, "_")))
 			methodsOK = false
+		case notKind(o, u, "*types.Struct") && len(td.asImpl[o]) == 0:
+			// the path took the arm that is *not* the struct arm of a switch over the kind: an opaque struct would contradict
+			// what the path established; the first kind the path did not exclude stands for the type
+			switch {
+			case !notKind(o, u, "*types.Pointer"):
+				emit(fmt.Sprintf("*struct{ _%s int }", strings.TrimLeft(name, "_")))
+			case !notKind(o, u, "*types.Slice"):
+				emit(fmt.Sprintf("[]struct{ _%s int }", strings.TrimLeft(name, "_")))
+			case !notKind(o, u, "*types.Array"):
+				emit(fmt.Sprintf("[3]struct{ _%s int }", strings.TrimLeft(name, "_")))
+			default:
+				emit(fmt.Sprintf("func(_%s int)", strings.TrimLeft(name, "_")))
+			}
+			methodsOK = false
 		default:
 			if td.unconstrained(o) && len(td.asImpl[o]) == 0 {
 				td.openKinds++
@@ -835,6 +849,21 @@ func (td *typeDecls) declare(name string, o *VOpaque, depth int) {
 			td.decls = append(td.decls, fmt.Sprintf("func (x *%s) DeepCopy(to interface{}) { panic(0) }", name))
 		}
 	}
+}
+
+// notKind: did the path exclude kind k for this type (or for its underlying type)?
+func notKind(o, u *VOpaque, k string) bool {
+	for _, x := range []*VOpaque{o, u} {
+		if x == nil {
+			continue
+		}
+		for _, nk := range x.notKinds {
+			if nk == k {
+				return true
+			}
+		}
+	}
+	return false
 }
 
 // hashMethodResult: the result type of the Hash method that hash.hasHashMethod accepts, from the tabulation of that
